@@ -137,8 +137,17 @@ class SimFile(object):
             return
         if self._pending:
             self._fs._op("flush", self.name, sum(len(p) for p in self._pending))
-            self._fs._commit(self.name, b"".join(self._pending))
+            raw = b"".join(self._pending)
             self._pending = []
+            fs = self._fs
+            fs._nflushes += 1
+            if fs.enospc_flush_at is not None and fs._nflushes == fs.enospc_flush_at:
+                # the disk is full when the buffered data finally goes out (typically at close):
+                # a part of it is written, then the error surfaces
+                fs._fire("ENOSPC-at-flush")
+                fs._commit(self.name, raw[:len(raw) // 2])
+                raise OSError(errno.ENOSPC, "No space left on device (injected at flush)", self.name)
+            fs._commit(self.name, raw)
 
     def close(self):
         if self.closed:
@@ -189,6 +198,8 @@ class SimFS(object):
         self.crash_at = None     # crash when opcount reaches this value
         self.crash_tear = None   # callable(path, pending_len) -> kept bytes
         self.enospc_at = None    # n-th write raises ENOSPC
+        self.enospc_flush_at = None   # n-th flush of buffered data raises ENOSPC
+        self._nflushes = 0
         self.eio_at = None       # n-th read raises EIO
         self._nwrites = 0
         self._nreads = 0
@@ -279,12 +290,15 @@ class SimFS(object):
         self.opcount = 0
         self._nwrites = 0
         self._nreads = 0
+        self._nflushes = 0
+        self.enospc_flush_at = None
 
     def new_run(self):
         """Reset per-run counters (same process or not)."""
         self.opcount = 0
         self._nwrites = 0
         self._nreads = 0
+        self._nflushes = 0
 
     # -- the open() seam -------------------------------------------------------
     def open(self, file, mode="r", buffering=-1, encoding=None, errors=None,
